@@ -6,6 +6,7 @@ toolchain go1.23.5
 
 require (
 	github.com/cube2222/octosql v0.0.0
+	github.com/segmentio/parquet-go v0.0.0-20220421002521-93f8e5ed3407
 	github.com/valyala/fastjson v1.6.3
 	pgregory.net/rapid v1.3.0
 )
@@ -32,7 +33,6 @@ require (
 	github.com/rivo/uniseg v0.2.0 // indirect
 	github.com/segmentio/encoding v0.3.5 // indirect
 	github.com/segmentio/fasthash v1.0.3 // indirect
-	github.com/segmentio/parquet-go v0.0.0-20220421002521-93f8e5ed3407 // indirect
 	github.com/tidwall/btree v1.3.1 // indirect
 	github.com/zyedidia/generic v1.1.0 // indirect
 	golang.org/x/exp v0.0.0-20220414153411-bcd21879b8fd // indirect
